@@ -3,6 +3,7 @@ from __future__ import annotations
 
 import io
 import random
+import re
 import sys
 import threading
 
@@ -123,6 +124,17 @@ FAMILIES = {
     "del_paren": (lambda n: "del " + "(" * n + "a" + ")" * n + "\n", "nest"),
     "for_target": (lambda n: "for " + "(" * n + "a" + ",)" * n + " in x:\n    pass\n", "nest"),
     "with_target": (lambda n: "with c as " + "(" * n + "a" + ",)" * n + ":\n    pass\n", "nest"),
+    # macro headers are parsed twice by design (look-ahead, then the statement) with the tokenizer in a special mode
+    "with_macro_target": (lambda n: "with! c as " + "(" * n + "a" + ",)" * n + ":\n    raw body\n", "nest"),
+    "with_macro_target_pairs": (lambda n: "with! f() as " + "(" * n + "a" + ", b)" * n + ":\n    raw body\n", "nest"),
+    "with_macro_list_target": (lambda n: "with! c as " + "[" * n + "a" + ", b]" * n + ":\n    raw body\n", "nest"),
+    "with_macro_ctx_calls": (lambda n: "with! " + "f(" * n + "1" + ")" * n + " as a:\n    raw body\n", "nest"),
+    "with_macro_ctx_parens": (lambda n: "with! " + "(" * n + "c" + ")" * n + ":\n    raw body\n", "nest"),
+    "with_macro_oneline": (lambda n: "with! c as " + "(" * n + "a" + ", b)" * n + ": raw body\n", "nest"),
+    "with_target_pairs": (lambda n: "with c as " + "(" * n + "a" + ", b)" * n + ":\n    pass\n", "nest"),
+    "for_target_pairs": (lambda n: "for " + "(" * n + "a" + ", b)" * n + " in x:\n    pass\n", "nest"),
+    "call_macro_callee_nest": (lambda n: "f(" * n + "g!(raw text)" + ")" * n + "\n", "nest"),
+    "subproc_macro_nest": (lambda n: "$(echo " + "@$(echo " * n + "@$(cmd! raw  text)" + ")" * n + " tail)\n", "nest"),
     "comp_target": (lambda n: "x = [1 for " + "(" * n + "a" + ",)" * n + " in y]\n", "nest"),
     "star_tuple_target": (lambda n: "(*" * n + "a" + ",)" * n + " = x\n", "nest"),
     "subscript_target": (lambda n: "a" + "[b" * n + "]" * n + " = 1\n", "nest"),
@@ -201,11 +213,35 @@ INVALID = {
     "trailing_garbage": lambda s: s + ")\n",
     "leading_garbage": lambda s: ") " + s,
     "keyword_inside": lambda s: s.replace("a", "import", 1),
+    "wrong_closer": lambda s: _wrong_closer(s, "all"),
+    "wrong_last_closer": lambda s: _wrong_closer(s, "last"),
+    "wrong_first_closer": lambda s: _wrong_closer(s, "first"),
 }
+_OTHER = {")": "]", "]": ")", "}": ")"}
+
+
+def _wrong_closer(s, how):
+    """the trailing run of closing brackets replaced by one wrong closer (all), or with its last / first closer exchanged for a wrong one"""
+    body = s.rstrip("\n")
+    run = len(body) - len(body.rstrip(")]}"))
+    if run == 0:
+        return s
+    head, tail = body[: len(body) - run], body[len(body) - run :]
+    if how == "all":
+        return head + _OTHER[tail[0]] + "\n"
+    if how == "last":
+        return head + tail[:-1] + _OTHER[tail[-1]] + "\n"
+    return head + _OTHER[tail[0]] + tail[1:] + "\n"
 
 
 # families whose nesting is by indentation, not by brackets: finding F18a (diagnostic pass over nested *brackets*) never applies to them
 BLOCK_FAMILIES = {"blocks", "while_blocks", "with_items_nested", "def_nested", "try_blocks", "for_blocks", "class_blocks", "match_blocks"}
+
+
+# finding F18a is quadratic growth: a doubling multiplies the work by about four. Anything steeper (cubic: eight, exponential: unbounded), or a
+# size that exhausts the step budget, is not that finding
+F18A_MAX_RATIO = 5.0
+_SUBPROC_OPENER = re.compile(r"\$\(|\$\[|!\(|!\[")
 
 
 def doubling_verdict(series):
@@ -272,11 +308,15 @@ def run_family(acc, name, variant, sizes):
         acc.sample({"family": name, "variant": variant, "series": series[-4:], "worst_ratio": round(worst, 2), "outcome": outcome})
     if viol:
         detail = {"series_n_ops": series, "steps": steps_series, "worst_ratio": round(worst, 2)}
-        if variant != "valid" and outcome == "syntax" and FAMILIES[name][1] == "nest" and name not in BLOCK_FAMILIES:
+        quadratic_at_most = worst <= F18A_MAX_RATIO and all(o != float("inf") for _, o in series)
+        if variant != "valid" and outcome == "syntax" and FAMILIES[name][1] == "nest" and name not in BLOCK_FAMILIES and quadratic_at_most:
+            acc.maxi("max_ratio_among_f18a_candidates_x100", int(worst * 100))
             acc.finding_candidates = getattr(acc, "finding_candidates", [])
             acc.seen("superlinear_invalid_nesting", f"{name}/{variant}")
             acc.count("f18a_candidates")
-            acc.violations.append({"kind": "F18a-candidate", "case": case, "detail": detail})
+            # F18c: unclosed / wrongly closed nested subprocess brackets (cmd_group rescans the words up to the first closer from every opener)
+            fid = "F18c" if _SUBPROC_OPENER.search(gen(3)) and variant in ("unclosed", "wrong_closer", "wrong_last_closer", "wrong_first_closer", "keyword_inside") else "F18a"
+            acc.violations.append({"kind": "F18a-candidate", "finding": fid, "case": case, "detail": detail})
         else:
             acc.violation("superlinear-work", case, detail)
 
@@ -306,7 +346,9 @@ def plan(tier, seed):
         variants = list(INVALID)
         if q:
             rnd2 = random.Random(f"{seed}:{name}")
-            variants = rnd2.sample(variants, 3)
+            variants = rnd2.sample(variants, 6)
+            if FAMILIES[name][1] == "nest" and name not in BLOCK_FAMILIES and "wrong_closer" not in variants:
+                variants.append("wrong_closer")
             if "double_eq" not in variants and name in ("paren", "list", "call"):
                 variants.append("double_eq")
             if name in BLOCK_FAMILIES:
@@ -332,7 +374,7 @@ def finish(acc, tier, seed):
         fam = v["case"]["family"]
         valid_ratio = ratios.get(f"{fam}/valid")
         if valid_ratio is not None and valid_ratio <= RATIO:
-            acc.finding("F18a", f"{fam}/{v['case']['variant']}")
+            acc.finding(v.get("finding", "F18a"), f"{fam}/{v['case']['variant']}")
         else:
             v["kind"] = "superlinear-work"
             keep.append(v)
